@@ -55,6 +55,7 @@ mutual
 inductive EVal where
   | s (v : SVal)
   | msg (fs : Slots)
+  deriving DecidableEq
 /-- value of a struct field. -/
 inductive Slot where
   | req (v : EVal)                       -- `T`
@@ -63,12 +64,16 @@ inductive Slot where
   | rep (xs : EVals)                     -- `Vec<T>`
   | map (kvs : Pairs)                    -- `AHashMap<K, V>` as an association list
   | one (tag : Nat) (v : EVal)           -- `Some(Enum::Variant(v))`, the variant named by its field number
+  deriving DecidableEq
 inductive Slots where
   | nil | cons (v : Slot) (r : Slots)
+  deriving DecidableEq
 inductive EVals where
   | nil | cons (v : EVal) (r : EVals)
+  deriving DecidableEq
 inductive Pairs where
   | nil | cons (k : SVal) (v : EVal) (r : Pairs)
+  deriving DecidableEq
 end
 
 instance : Inhabited EVal := ⟨.s (.int 0)⟩
@@ -82,6 +87,11 @@ def EVals.ofList : List EVal → EVals
 def EVals.toList : EVals → List EVal
   | .nil => [] | .cons x xs => x :: xs.toList
 def EVals.snoc (xs : EVals) (x : EVal) : EVals := xs.append (.cons x .nil)
+def Slots.append : Slots → Slots → Slots
+  | .nil, ys => ys
+  | .cons x xs, ys => .cons x (xs.append ys)
+def Slots.length : Slots → Nat
+  | .nil => 0 | .cons _ r => r.length + 1
 def Slots.ofList : List Slot → Slots
   | [] => .nil | x :: xs => .cons x (Slots.ofList xs)
 def Slots.toList : Slots → List Slot
@@ -223,6 +233,10 @@ def encPairs (s : Schema) (flag : Bool) (tag : Nat) (kc : Codec) (vty : FTy) : P
     keyBytes tag .len ++ encodeVarint len ++ (if skipK then [] else kc.encode 1 k) ++
       (if skipV then [] else encE s flag 2 vty v) ++ encPairs s flag tag kc vty r
 end
+
+/-- the length prefix of a map entry. -/
+def entryLen (s : Schema) (flag : Bool) (kc : Codec) (vty : FTy) (k : SVal) (v : EVal) : Nat :=
+  (if !flag && k.isDefault then 0 else kc.encodedLen 1 k) + (if !flag && v.isDefault then 0 else lenE s flag 2 vty v)
 
 /-- `Message::encode_to_vec` of message `i`. -/
 def encode (s : Schema) (flag : Bool) (i : Nat) (m : Slots) : Bytes := encSlots s flag (decls s i) m
